@@ -296,7 +296,8 @@ def rk_lift(ctx):
                 for bs, be in loc[0]:
                     if be - bs >= 4:
                         # edits flush with a block start / end: unpadded deletion, insertion-like replacement, SNV
-                        aligned += [(bs, bs + 2, ""), (be - 2, be, ""), (bs, bs + 1, "TT"), (be - 1, be, "G"), (bs, bs + 3, "A")]
+                        aligned += [(bs, bs + 2, ""), (be - 2, be, ""), (bs, bs + 1, "TT"), (be - 1, be, "G"), (bs, bs + 3, "A"),
+                                    (be - 1, be, "GGG"), (be - 3, be, "A"), (bs, bs + 2, "ACGT")]
                 for v in VARIANTS + aligned:
                     specs.append(((v,), ch, loc, kind))
                 for a, b in itertools.combinations(VARIANTS, 2):
